@@ -117,6 +117,9 @@ func scanLabels(p *symbolScanner) scanStateFn {
 		}
 		p.labelBuf = append(p.labelBuf, p.nextToken.val)
 		return p.consume(scanLabels)
+	case tokColon:
+		// "label: op", as in the parser and the FOR expander
+		fallthrough
 	case tokComment:
 		fallthrough
 	case tokNewline:
